@@ -38,7 +38,7 @@ def check(ctx, world):
         "accesses exactly the table's keys by constant subscripts (so key order and whitespace are irrelevant) and builds each "
         "field by the inverse decoding (unhexlify for bytes fields, group.bytes_to_scalar for the scalar, ASCII for side, "
         "string comparison for the fingerprint, which is recomputed by the same recipe).")
-    ctx.min_obligations = 40
+    ctx.min_obligations = 32
     ev = session.new_ev(world)
     for cname in session.PUBLIC_CLASSES:
         for cm in session.models(world, ev, cname):
